@@ -859,6 +859,29 @@ class SymExec:
             item = st.items[0]
             cm = self.ev(item.context_expr, fr)
             fcm = freeze(cm)
+            if isinstance(fcm, tuple) and fcm[:1] == ('call',) and fcm[2] == ('ref', 'ext', 'contextlib.suppress') and fcm[3] \
+                    and all(isinstance(x, tuple) and x[:1] == ('ref',) and x[1] in ('builtin', 'ext', 'cls') for x in fcm[3]):
+                # with suppress(E1, E2): body      ==      try: body / except (E1, E2): pass
+                hs_ = self.__dict__.setdefault('_with_handlers', {})
+                H = hs_.setdefault(st, ast.copy_location(ast.ExceptHandler(type=None, name=None, body=[ast.Pass()]), st))
+                types_ = tuple((x[1], x[2]) for x in fcm[3])
+                descr_ = ((types_, H),)
+                self.emit('with_enter', st, cm=cm)
+                if self.choose(2, 'with-exc') == 1:
+                    self.emit('exc_edge', st, types=types_, handler=H, subs=())
+                    return                  # an exception of a suppressed class somewhere in the body: execution goes on after the block
+                self.ctx.append(('with', fcm, st))
+                self.ctx.append(('try', st, descr_))
+                try:
+                    try:
+                        self.exec_block(st.body, fr)
+                    finally:
+                        self.ctx.pop()
+                        self.ctx.pop()
+                except _Raise as r:
+                    if self._match_handler(descr_, r.exc) is None:
+                        raise
+                return
             if isinstance(fcm, tuple) and fcm[:1] == ('call',) and fcm[2] == ('ref', 'ext', 'contextlib.ExitStack') and not fcm[3]:
                 # with ExitStack() as stack: ... stack.callback(f, *a) ...   ==   try: ... finally: f(*a) (last registered first)
                 es = ExitStackVal(self.fresh())
@@ -913,7 +936,7 @@ class SymExec:
                             if isinstance(x_, tuple) and x_[:1] == ('ref',) and x_[1] in ('builtin', 'ext', 'cls'):
                                 caught.append((x_[1], x_[2]))
                 handlers_ = self.__dict__.setdefault('_with_handlers', {})
-                H = handlers_.setdefault(st, ast.ExceptHandler(type=None, name=None, body=[]))
+                H = handlers_.setdefault(st, ast.copy_location(ast.ExceptHandler(type=None, name=None, body=[]), st))
                 descr_ = ((tuple(caught), H),) if caught else ()
                 if caught and self.choose(2, 'with-exc') == 1:
                     # an exception of a class the manager looks for is raised somewhere in the body
